@@ -6,6 +6,7 @@
 #include "vp.h"
 #include <stdarg.h>
 #include "event2/util.h"
+ev_uint32_t event_debug_logging_mask_ = 0;
 int vp_warn_count;
 int vp_fatal_is_ok; /* harness sets this when a fatal exit is an allowed outcome */
 void event_warn(const char *fmt, ...) { (void)fmt; vp_warn_count++; }
